@@ -1,7 +1,7 @@
 (* C17 - without_interrupts restores the interrupt flag; enable_and_hlt is atomic.
    Partial: that an asm! block without `nomem` is a compiler barrier is a rustc contract,
    outside the model; the flag is the emulated IF of the software CPU (hook H2). *)
-From X86 Require Import Base.Word Machine.Wrappers Machine.Proofs Machine.AsmPins.
+From X86 Require Import Base.Word Machine.Wrappers Machine.Proofs Machine.AsmPins Machine.AsmPinsC17.
 Open Scope Z_scope.
 
 Theorem C17_are_enabled_reports_flag : forall s, are_enabled s = Ok (iflag s, s).
@@ -52,3 +52,10 @@ Print Assumptions C17_enable_and_hlt_back_to_back.
 Theorem C17_asm_blocks_as_modelled : pins_C17 = true.
 Proof. exact pins_C17_ok. Qed.
 Print Assumptions C17_asm_blocks_as_modelled.
+
+(* every asm! block in this property's domain is, in the current source, exactly the block the
+   model was written against: template, operand bindings and the complete option list; and no
+   block of the crate is `pure`, `nostack` around a push/pop, or `nomem` with a memory operand *)
+Theorem C17_asm_blocks_exact : pins_C17_exact = true.
+Proof. exact pins_C17_exact_ok. Qed.
+Print Assumptions C17_asm_blocks_exact.
